@@ -270,7 +270,7 @@ func (ic *importClient) Shutdown() {
 	}
 	defer ic.c.tasks.Done()
 	ent := ic.c.imports[ic.id]
-	if ic.generation != ent.generation {
+	if ent == nil || ic.generation != ent.generation {
 		// A new reference was added concurrently with the Shutdown.  See
 		// impent.generation documentation for an explanation.
 		ic.c.mu.Unlock()
